@@ -299,6 +299,20 @@ class Blob(persistent.Persistent):
 
         return filename
 
+    def _take_back_savepoint_data(self):
+        # The connection disowns this blob, which was new in a transaction
+        # that is being aborted or rolled back: the "committed" file is one
+        # of a savepoint, about to be removed.  Make the data uncommitted
+        # data again, as they were before the savepoint: attached again,
+        # the blob is stored like any new blob (with nothing uncommitted it
+        # would be taken for unmodified and not be stored at all).
+        committed = self._p_blob_committed
+        if (committed and self._p_blob_uncommitted is None
+                and os.path.exists(committed)):
+            filename = self._create_uncommitted_file()
+            rename_or_copy_blob(committed, filename, chmod=False)
+        self._p_blob_committed = None
+
     def _uncommitted(self):
         # hand uncommitted data to connection, relinquishing responsibility
         # for it.
